@@ -53,6 +53,14 @@ CHECKS.update({
         text='TLC enumerates every token sequence up to a length bound over the terminal alphabet (HplTokenSeq); these, random longer sequences, single/double token mutants of the enumerated valid sentences, character noise and deeply nested texts are fed to every parser entry point; T_C07 classifies each outcome (AST or a documented error; ValueError only with an unknown function name) and, with the memo of first results as its state, requires every later call with the same text - on the same long-lived parser object after thousands of other calls, on a second object in another order, on fresh objects in all orders of small sets - to give the same outcome and the same AST.',
         note='Arbitrary Unicode cannot be enumerated by TLC; it is sampled and only classified. Bounded lengths.',
         technique='TLC enumeration of token sequences + stateful trace validation (T_C07)', design='5/C07'),
+    'C02': dict(
+        text='TLC enumerates the shape space of HplShapes (every scope kind x pattern kind x alias/reference placement over aliases {none,A,B} for all-simple events - 5880 shapes, exhaustive - plus references inside quantifier bodies and domains, quantifier-hygiene faults, disjunctions with sibling references, shared aliases and duplicate channels); every shape is brought into being three ways (parsed, built through the constructor API from the tree the grammar assigns, reached by but() from a valid property) and T_C02 compares accept/reject and the error class with HplScoping!Accept.',
+        note='Two shape classes are deliberately not judged (same alias on two alternatives of one disjunction; terminator alias equal to a pattern alias) and are counted in the evidence.',
+        technique='TLC enumeration of property shapes (MC_Shapes) + trace validation against HplScoping (T_C02)', design='5/C02'),
+    'C11': dict(
+        text='TLC enumerates every scope kind x pattern kind x disjunction width 1..4 in each event position (1400 shapes, exhaustive) plus the disjunctive alias shapes; each is parsed, decorated with metadata on property/scope/pattern/events and random time bounds (and rebuilt left-nested through the API), and T_C11 requires the recorded canonical_form output - projected with types, times and metadata - to equal HplProps!CanonicalForm element by element, plus same-object, metadata-not-shared and idempotence facts.',
+        note='Predicates/aliases inside the shapes come from a small pool; the alias-bound-by-some-alternatives shape is the recorded C14 finding and is skipped here.',
+        technique='TLC enumeration of property shapes (MC_Shapes) + trace validation against HplProps!CanonicalForm (T_C11)', design='5/C11'),
 })
 
 REASON_PENDING = 'check not built yet in this session (planned in DESIGN.md section 5); not claimed until its machinery exists'
